@@ -20,6 +20,8 @@ type fragConn struct {
 	frags  [][]byte
 	out    bytes.Buffer
 	closed bool
+	served int
+	onFrag func(i int) // called before the i-th fragment (0-based) is handed to the reader
 }
 
 func newFragConn(data []byte, cuts []int) *fragConn {
@@ -42,11 +44,19 @@ func (c *fragConn) Read(p []byte) (int, error) {
 	if len(c.frags) == 0 {
 		return 0, io.EOF
 	}
+	if f := c.onFrag; f != nil {
+		c.onFrag = nil
+		c.mu.Unlock()
+		f(c.served)
+		c.mu.Lock()
+		c.onFrag = f
+	}
 	n := copy(p, c.frags[0])
 	if n < len(c.frags[0]) {
 		c.frags[0] = c.frags[0][n:]
 	} else {
 		c.frags = c.frags[1:]
+		c.served++
 	}
 	return n, nil
 }
@@ -136,6 +146,7 @@ func c12Rt(r *rng, id string) {
 	}
 	path := []string{"pkt", "str", "pp"}[r.intn(3)]
 	wire, got, pan := 0, "-", 0
+	ngot := -1
 	func() {
 		defer func() {
 			if rec := recover(); rec != nil {
@@ -156,7 +167,9 @@ func c12Rt(r *rng, id string) {
 			}
 			wire = len(pk[0])
 			rcv.ingest(pk[0])
-			got = hexList(rcv.del.take())
+			msgs := rcv.del.take()
+			ngot = len(msgs)
+			got = hexList(msgs)
 		case "str":
 			big := r.chance(1, 5)
 			if big {
@@ -165,7 +178,9 @@ func c12Rt(r *rng, id string) {
 			data := captureStream(snd, func() { snd.m.SendReliable(to, payload) })
 			wire = len(data)
 			ml.VerifHandleConn(rcv.m, newFragConn(data, randCuts(r, len(data))))
-			got = hexList(rcv.del.take())
+			msgs := rcv.del.take()
+			ngot = len(msgs)
+			got = hexList(msgs)
 			if big {
 				// long payloads are compared by digest
 				g := rcv.del.take()
@@ -217,8 +232,8 @@ func c12Rt(r *rng, id string) {
 			got = strings.Join(parts, ",")
 		}
 	}
-	emit("C12 rt id=%s path=%s label=%d enc=%s comp=%d crc=%d len=%d payload=%s wire=%d got=%s panic=%d",
-		id, path, len(c.label), enc, b2i(c.compress), b2i(crc), len(payload), pl, wire, got, pan)
+	emit("C12 rt id=%s path=%s label=%d enc=%s comp=%d crc=%d len=%d payload=%s wire=%d got=%s ngot=%d panic=%d",
+		id, path, len(c.label), enc, b2i(c.compress), b2i(crc), len(payload), pl, wire, got, ngot, pan)
 }
 
 func TestC12(t *testing.T) {
